@@ -64,14 +64,14 @@ theorem OldOutcome.site {f : Forest} {po : Nat} {vo : Value} {l : List HTree} {t
     subst el er
     refine ⟨l' ++ [a.setValue (.text (x ++ y))], r', ?_, ?_, ?_, ?_⟩
     · have := so.edit (fun _ => l' ++ a.setValue (.text (x ++ y)) :: t :: r') (by
-        simp only [handlesList_append, handlesList_cons, setValue_handles, handlesList_nil, List.append_nil,
+        simp only [fs_handlesList_append, handlesList_cons, setValue_handles, handlesList_nil, List.append_nil,
           List.append_assoc]
         refine (List.Sublist.refl _).append ((List.Sublist.refl _).append ((List.Sublist.refl _).append ?_))
         exact List.sublist_append_right _ _)
       simpa using this
     · simp
     · constructor
-      · simp only [handlesList_append, handlesList_cons, setValue_handles, handlesList_nil, List.append_nil]
+      · simp only [fs_handlesList_append, handlesList_cons, setValue_handles, handlesList_nil, List.append_nil]
         exact List.Sublist.refl _
       · rw [handlesList_cons]
         exact List.sublist_append_right _ _
